@@ -22,6 +22,8 @@ EXPLANATION = (
     "follows it; otherwise nothing is written, reset or cleared. write_records opens filename with filemode, writes every "
     "held record in list order (one write per element) and closes. Not decided: on-disk state at a crash point.")
 EXPLANATION += (" Premises: C01, C05 and C02 (one execute per scheduled timestep, after the timestep's systems). The record may be allocated with its timestep entry and the agents pass may be one dict comprehension merged by update().")
+EXPLANATION += (' Collector.records is appended only by functions whose documented root is a collect() method.')
+EXPLANATION += (' Whether the timestep is recorded is decided by the truth value of includeTimestep on every path.')
 ASSUMPTIONS = ["OS/file-system behaviour between open and close is not decided (crash-point part of the quantifier)",
                "write_count is a non-negative integer"]
 
@@ -90,6 +92,12 @@ def run(cx: Cx):
         elif implies(p.cond, f_not(inc)) is None:
             if ts:
                 viol('R-GUARD', 'timestep-recorded-when-configured', "a timestep is recorded although includeTimestep is off", cx.where(col))
+        else:
+            # the path has not decided the TRUTH VALUE of the flag (`is True`, `== 1`, ...): a truthy flag that is not the literal
+            # True (1, numpy.bool_) is then treated as off
+            viol('R-GUARD', 'timestep-recorded-when-configured',
+                 f"whether the timestep is recorded is not decided by the truth value of includeTimestep on a path [{p.cond!r}]: a truthy "
+                 f"flag other than the literal True (1, numpy.bool_(True)) no longer records it", cx.where(col))
         # agents loop
         agent_update = None
         loops = [e for e in evs if e.kind == 'loop']
